@@ -20,11 +20,14 @@ SHAPES["wide"] = dict(nodes={"a": (1, []), "b": (2, []), "c": (3, []), "d": (4, 
 SHAPES["splitfail"] = dict(nodes={"s": (1, []), "d": (2, ["s"]), "i1": (3, []), "i2": (4, ["i1"]), "i3": (5, ["i2"])},
                            make=lambda x, fails: D.SplitPartialFail(xs=[5, 6, 7], fail_on=6 if "s" in fails else -1),
                            outputs=lambda x: {"d": [8, 9, 10], "i": 13})
+SHAPES["dupref"] = dict(nodes={"a": (1, []), "c": (2, []), "d": (3, ["c"]), "b": (4, ["d"]), "j": (5, ["a", "b"])},
+                        make=lambda x, fails: D.DupRef(x=x),
+                        outputs=lambda x: {"j": (x + 1) * 10000 + (x + 1) * 100 + (x + 2 + 3 + 4) + 5})
 FAILABLE = {"indep": ["f", "k"], "forkjoin": ["p", "q"], "splitfail": ["s"]}
 
 
 def tag_of(ev):
-    return ev[3] if ev[0] == "Join" else ev[2]
+    return ev[4] if ev[0] == "Join3" else ev[3] if ev[0] == "Join" else ev[2]
 
 
 def ancestors(nodes, n):
